@@ -333,7 +333,7 @@ func execC01Raw(c C01Case) *Failure {
 			want := len(plan[ci])
 			switch {
 			case c.Mode == ModeLegacy:
-				cn.stream.WaitEvents(cn.seen+want, Bound()*8)
+				cn.stream.WaitEvents(cn.seen+want, Patience())
 				cn.stream.WaitQuiet(4*time.Millisecond, 100*time.Millisecond)
 				evs := cn.stream.Events()
 				for _, e := range evs[cn.seen:] {
@@ -341,7 +341,7 @@ func execC01Raw(c C01Case) *Failure {
 				}
 				cn.seen = len(evs)
 			case c.Mode == ModeStdio:
-				cn.out.WaitLines(cn.lines+want, Bound()*8)
+				cn.out.WaitLines(cn.lines+want, Patience())
 				cn.out.WaitQuiet(4*time.Millisecond, 100*time.Millisecond)
 				all, _ := SplitStdioLines(cn.out.Bytes())
 				frames[ci] = append(frames[ci], all[cn.lines:]...)
